@@ -395,6 +395,9 @@ def check_once(model, rep):
 
 
 def check(model, rep):
+    # hidden state Python keeps outside the objects (not modelled by the evaluator): reported before anything else is evaluated
+    from checks.solver_common import package_lints as _package_lints
+    _package_lints(model, rep, 'C14.hidden-state', ('/motor_control/pwm_control.py', '/dc_motor.py', '/solver.py'))
     rep.explain('C14: PWMControl.apply_rules is recognised structurally (one apply() per rule, count of `is not None` '
                 'proposals) and its decision part is evaluated symbolically with the count and the chosen proposal as atoms: '
                 'region table over count in {0, 1, 2, 3} (default 1 / clipped single proposal / ValueError), exhaustive '
